@@ -16,4 +16,7 @@ CONSTANTS
   RecordHist = FALSE
   Canon = FALSE
   Coarse = FALSE
-INVARIANTS TypeOK PassOnlyIfClean CleanPasses VerdictModuloKnown OrderIndependenceModuloKnown OrderIndependenceNoEarly ExitNonZeroIffNotAllPass ValidNeverAbstract OneOutputPerQuery ShutdownOnlyAfterValid
+  MutPrecedence = FALSE
+  MutNoCatch = FALSE
+  KilledMayRaise = FALSE
+INVARIANTS TypeOK PassOnlyIfClean CleanPasses VerdictIsPrecedence OrderIndependence NoLostCounterexampleStrict OrderIndependenceNoEarly ExitNonZeroIffNotAllPass ValidNeverAbstract OneOutputPerQuery ShutdownOnlyAfterValid
